@@ -316,6 +316,13 @@ func containment(r *Run) {
 				if t.Bool(1, 4, "abs") {
 					n = "/" + n
 				}
+				if dict := sourceDict(); len(dict) > 0 && t.Bool(1, 3, "dictionary-token") {
+					// leave the directory and come back in through a name taken
+					// from the dictionary of the source tree's string literals
+					tok := dict[t.Draw(len(dict), "token")]
+					n = []string{"../" + tok + "/x", "sub/../../" + tok + "/x", "../../" + tok + "/x", tok + "/../../x", "../" + tok}[t.Draw(5, "shape")]
+					r.Probe("name-with-dictionary-token")
+				}
 				names[pos] = n
 			}
 		}
@@ -451,6 +458,16 @@ func containment(r *Run) {
 	also := ""
 	if c15UniNames != nil || c15DupDesc != nil || c15EmptyEntry != "" {
 		also = fmt.Sprintf("; also declared: unicode-name packets %q, repeated description packets %q, zero-length entry %q", c15UniNames, c15DupDesc, c15EmptyEntry)
+	}
+	// the directory an escaping relative name would land in exists (a
+	// write into a missing directory fails by itself and shows nothing)
+	for i, n := range names {
+		if !hostileAt[i] || strings.HasPrefix(n, "/") || strings.ContainsAny(n, "\x00") {
+			continue
+		}
+		if dir := filepath.Dir(filepath.Join(c15Dir, n)); !strings.HasPrefix(dir+"/", c15Dir+"/") && len(dir) < 200 {
+			d.MkdirAll(dir)
+		}
 	}
 	index := buildHostileShadow(d, par1Set, names, contents, shadow)
 	c15UniNames = nil
